@@ -269,7 +269,8 @@ impl Responder {
                 // Don't consider reorged trackers since they have wrong DB status.
                 continue;
             } else if let ConfirmationStatus::ConfirmedIn(h) = penalty_summary.status {
-                let confirmations = current_height - h;
+                // `h` is above the current height when blocks are processed again after a restart
+                let confirmations = current_height.saturating_sub(h);
                 if confirmations == constants::IRREVOCABLY_RESOLVED {
                     // Tracker is deep enough in the chain, it can be deleted
                     completed_trackers.push(uuid);
@@ -281,7 +282,7 @@ impl Responder {
                 log::info!(
                     "Transaction missed a confirmation: {} (missed conf count: {})",
                     penalty_summary.penalty_txid,
-                    current_height - h
+                    current_height.saturating_sub(h)
                 );
             }
         }
